@@ -385,3 +385,47 @@ def main(argv=None):
     except Exception:
         print(f"HARNESS-ERROR {prop_id}: {traceback.format_exc()}", file=sys.stderr)
         return 2
+
+
+def run_fuzz_campaign(prop_id, runs, shards=8):
+    """atheris campaigns (one process per shard, own corpus dir, seed derived from VERIF_SEED). Returns a Result."""
+    import subprocess
+    import tempfile
+    import shutil
+    res = Result()
+    if not os.path.isdir(os.path.join(VERIF_DIR, ".deps", "atheris")):
+        res.notes.append("atheris is not installed (setup.sh): coverage-guided campaign skipped")
+        return res
+    base = tempfile.mkdtemp(prefix=f"fuzz-{prop_id}-")
+    procs = []
+    try:
+        for sh in range(shards):
+            out = os.path.join(base, str(sh))
+            env = dict(os.environ, VERIF_REPO=REPO)
+            procs.append((out, subprocess.Popen(["/venv/bin/python", os.path.join(VERIF_DIR, "vlib", "fuzz_main.py"), prop_id.lower(),
+                                                 str(runs // shards), str(SEED * 100 + sh + 1), out], env=env,
+                                                stdout=subprocess.DEVNULL, stderr=subprocess.PIPE, text=True)))
+        for out, p in procs:
+            _, err = p.communicate()
+            sp = os.path.join(out, "stats.json")
+            if not os.path.exists(sp):
+                raise HarnessError(f"fuzz shard produced no statistics (exit {p.returncode}): {err[-600:]}")
+            with open(sp) as f:
+                st = json.load(f)
+            res.evaluations += st["decoded"]
+            res.classes["atheris_executions"] += st["executions"]
+            res.classes["atheris_decoded_cases"] += st["decoded"]
+            for k, s in enumerate(st["samples"][:2]):
+                res.samples.append(canon(s))
+            for k in range(st["nontrivial"]):
+                res.nontrivial.add(digest(["fuzz", out, k]))
+            vp = os.path.join(out, "violation.json")
+            if os.path.exists(vp):
+                with open(vp) as f:
+                    v = json.load(f)
+                res.violation(v["case"], "[atheris] " + v["message"])
+            elif p.returncode not in (0,):
+                raise HarnessError(f"fuzz shard exited {p.returncode}: {err[-600:]}")
+    finally:
+        shutil.rmtree(base, ignore_errors=True)
+    return res
